@@ -49,8 +49,8 @@ def _amount(pre, n_jobs):
     if pre == "all":
         return None
     if isinstance(pre, str):
-        return int(eval(pre.replace("n_jobs", str(n_jobs))))
-    return int(pre)
+        return max(int(eval(pre.replace("n_jobs", str(n_jobs)))), 1)
+    return max(int(pre), 1)
 
 
 def _setup(sim, p, out):
@@ -72,6 +72,7 @@ def _setup(sim, p, out):
 
     def d1b(iterator):
         entered_aborting = bool(p._aborting)
+        entered_after_failure = st["failure_registered"]
         before = len(out.iter_log)
         try:
             return orig_d1b(iterator)
@@ -79,8 +80,28 @@ def _setup(sim, p, out):
             took = [e for e in out.iter_log[before:] if e[0] == "take"]
             if entered_aborting and took:
                 out.violations.append("dispatch_one_batch entered while aborting took %d items" % len(took))
+            elif entered_after_failure and took:
+                out.violations.append("dispatch_one_batch entered after a task's failure had been registered by its "
+                                      "completion callback took %d items" % len(took))
     p._start = _start
     p.dispatch_one_batch = d1b
+    # "once a task has failed", independently of joblib's own flags: the completion callback of a failed batch has returned
+    st["failure_registered"] = False
+    if not hasattr(jp.BatchCompletionCallBack, "_c09_orig_call"):
+        jp.BatchCompletionCallBack._c09_orig_call = jp.BatchCompletionCallBack.__call__
+
+        def _cb_call(self, *a, **k):
+            try:
+                return jp.BatchCompletionCallBack._c09_orig_call(self, *a, **k)
+            finally:
+                hook = getattr(self.parallel, "_c09_failure_hook", None)
+                if hook is not None and getattr(self, "status", None) == jp.TASK_ERROR:
+                    hook()
+        jp.BatchCompletionCallBack.__call__ = _cb_call
+
+    def _mark():
+        st["failure_registered"] = True
+    p._c09_failure_hook = _mark
     nj, bs = out_cfg["n_workers"], out_cfg["batch_size"]
     amount = _amount(out_cfg["pre_dispatch"], nj)
 
@@ -248,19 +269,19 @@ def ob_reject(k: int) -> bool:
         return H.verdict(False, "%s evaluated to %r" % (BAD_NODES[kk], r))
 
 
-FORMS = ["n_jobs", "2*n_jobs", "1.5*n_jobs", "3", 7, "2 * n_jobs", "n_jobs + 1"]
+FORMS = ["n_jobs", "2*n_jobs", "1.5*n_jobs", "3", 7, "2 * n_jobs", "n_jobs + 1", 3.5, "0.7*n_jobs"]   # fractional amounts truncate
 
 
 def ob_forms(fi: int, nj: int, pos0: int) -> bool:
     """
-    pre: 0 <= fi <= 6
-    pre: 2 <= nj <= 4
+    pre: 0 <= fi <= 8
+    pre: 2 <= nj <= 5
     pre: -1 <= pos0 <= 60
     post: _
     """
     H.enter()
     H.assume(pos0 == -1 or pos0 % 4 == 0)
-    f, n_jobs, p0 = FORMS[H.select(fi, 0, 6)], H.select(nj, 2, 4), H.select_bisect(pos0, -1, 60)
+    f, n_jobs, p0 = FORMS[H.select(fi, 0, 8)], H.select(nj, 2, 5), H.select_bisect(pos0, -1, 60)
     with H.native():
         params = {"backend": "threading", "n_workers": n_jobs, "pre_dispatch": f, "batch_size": 1}
         pre = [(p0, 0)] if p0 >= 0 else []
@@ -318,5 +339,5 @@ def obligations(tier, seed):
     obs.append({"name": "reject", "fn": "ob_reject", "mode": "S", "timeout": 60,
                 "bounds": "10 non-arithmetic expressions must raise ValueError"})
     obs.append({"name": "forms", "fn": "ob_forms", "mode": "S", "timeout": 300,
-                "bounds": "7 pre_dispatch forms x n_jobs 2..4 x pre-emption at every 4th of the first 60 switch points"})
+                "bounds": "9 pre_dispatch forms (incl. fractional ones) x n_jobs 2..5 x pre-emption at every 4th of the first 60 switch points"})
     return obs
